@@ -212,6 +212,20 @@ pub async fn run_case(name: &str, cfg: Cfg, mut model: Option<&mut ModelProc>, m
             Outcome::Activated { .. } => res.hits.push("out:activated".into()),
             Outcome::Odd(_) => res.hits.push("out:odd".into()),
         }
+        // coverage of the model's branches: which clause kind ended how when it stood alone, and in which
+        // statements each kind took part in a commit / a refusal (evidence: `coverage` histogram)
+        let how = match &out {
+            Outcome::Refused { code, message } => format!("refused-{}", err_class(code, message)),
+            Outcome::Dry { .. } => "dry".to_string(),
+            Outcome::Done { status, .. } => status.clone(),
+            _ => "other".to_string(),
+        };
+        if activate.is_none() {
+            if st.clauses.len() == 1 { res.hits.push(format!("alone:{}:{how}", st.clauses[0].shape())); }
+            let mut kinds: Vec<&'static str> = st.clauses.iter().map(|c| c.shape()).collect();
+            kinds.sort(); kinds.dedup();
+            for k in kinds { res.hits.push(format!("in:{k}:{}", how.split('-').next().unwrap_or("other"))); }
+        }
         canon.push_str(&out.canon());
         canon.push('|');
 
